@@ -270,7 +270,7 @@ func ToInteger(p Primary) Primary {
 		if i, e := strconv.ParseInt(s, 10, 64); e == nil {
 			return NewInteger(i)
 		}
-		if f, e := strconv.ParseFloat(s, 64); e == nil {
+		if f, e := strconv.ParseFloat(s, 64); e == nil && !math.IsNaN(f) && !math.IsInf(f, 0) {
 			return NewInteger(int64(f))
 		}
 	}
